@@ -85,7 +85,10 @@ func c09Gen(t *rapid.T) c09Case {
 	pick := func(label string) string { return rapid.SampledFrom(files).Draw(t, label) }
 	nEdits := rapid.SampledFrom([]int{0, 0, 0, 1, 1, 2}).Draw(t, "nedits")
 	for i := 0; i < nEdits; i++ {
-		switch rapid.IntRange(0, 6).Draw(t, "edit") {
+		switch rapid.IntRange(0, 7).Draw(t, "edit") {
+		case 7:
+			// an added regular file that carries a special mode bit
+			c.DirEdits = append(c.DirEdits, "w:"+rapid.SampledFrom([]string{"setuid", "setgid", "sticky"}).Draw(t, "modebit")+"-tool:evil")
 		case 5:
 			c.DirEdits = append(c.DirEdits, "w:payload.link:evil")
 		case 6:
@@ -122,7 +125,7 @@ func c09Gen(t *rapid.T) c09Case {
 		case 2:
 			in.Ops = []string{"rm:" + pick("delete")}
 		case 3:
-			in.Exit = rapid.SampledFrom([]int{1, 2, 42, 127, 255}).Draw(t, "exit")
+			in.Exit = rapid.SampledFrom([]int{1, 2, 42, 127, 255, -9, -15}).Draw(t, "exit") // negative: the command kills itself with that signal
 		case 4:
 			in.Broken = rapid.SampledFrom([]string{"missing", "empty", "directory"}).Draw(t, "broken")
 		case 5:
@@ -313,7 +316,11 @@ func c09Run(c c09Case, r *hx.Rec) error {
 			mi.Run = []string{"@ROOT@"}
 		default:
 			mi.Run = append([]string{"@EMIT@", "log:@LOG@:" + in.Name}, in.Ops...)
-			mi.Run = append(mi.Run, fmt.Sprintf("x:%d", in.Exit))
+			if in.Exit < 0 {
+				mi.Run = append(mi.Run, fmt.Sprintf("k:%d", -in.Exit))
+			} else {
+				mi.Run = append(mi.Run, fmt.Sprintf("x:%d", in.Exit))
+			}
 		}
 		l2.Inspect = append(l2.Inspect, mi)
 	}
@@ -323,7 +330,13 @@ func c09Run(c c09Case, r *hx.Rec) error {
 	applyOps(tree, c.DirEdits)
 	w.Product = nil
 	for _, p := range sortedFileKeys(tree) {
-		w.Product = append(w.Product, hx.WFile{Path: p, Content: tree[p]})
+		wf := hx.WFile{Path: p, Content: tree[p]}
+		for _, bit := range []string{"setuid", "setgid", "sticky"} {
+			if p == bit+"-tool" {
+				wf.Special = bit
+			}
+		}
+		w.Product = append(w.Product, wf)
 	}
 	if len(w.Product) == 0 {
 		r.Unasserted() // an empty run directory is refused by the run-directory entry point for other reasons
